@@ -38,6 +38,63 @@ def _line_loop(ctx, f: FuncInfo):
     return loops[0]
 
 
+def _root(e) -> Optional[str]:
+    while isinstance(e, (ast.Attribute, ast.Subscript, ast.Call)):
+        e = e.func if isinstance(e, ast.Call) else e.value
+    return e.id if isinstance(e, ast.Name) else None
+
+
+def _carried_names(f: FuncInfo, loop) -> Set[str]:
+    """names that live across iterations of the line loop: bound before the loop in the function body (plus self)"""
+    out = {'self'}
+    for s in f.node.body:
+        if s is loop:
+            break
+        for n in ast.walk(s):
+            if isinstance(n, ast.Name) and isinstance(n.ctx, ast.Store):
+                out.add(n.id)
+    return out
+
+
+def _is_effect(s, carried: Set[str]) -> bool:
+    """does the statement record something that outlives the iteration (the line is *consumed*)?"""
+    if isinstance(s, (ast.For, ast.While, ast.With, ast.Try)):
+        return any(_is_effect(x, carried) for x in ast.walk(s) if isinstance(x, ast.stmt) and x is not s)
+    if isinstance(s, (ast.Assign, ast.AugAssign, ast.AnnAssign)):
+        tg = s.targets if isinstance(s, ast.Assign) else [s.target]
+        for t in tg:
+            for x in ([t] if not isinstance(t, (ast.Tuple, ast.List)) else t.elts):
+                if _root(x) in carried:
+                    return True
+    if isinstance(s, ast.Expr) and isinstance(s.value, ast.Call) and isinstance(s.value.func, ast.Attribute) and _root(s.value.func.value) in carried:
+        return True
+    return False
+
+
+def _skip_edge(s, lab) -> bool:
+    """is (statement, branch label) the `this line is blank or a comment` outcome?"""
+    if not isinstance(s, ast.If) or lab not in (True, False):
+        return False
+    t, truth = s.test, lab
+    while isinstance(t, ast.UnaryOp) and isinstance(t.op, ast.Not):
+        t, truth = t.operand, not truth
+    text = src(t)
+    return truth and ("startswith('#')" in text or 'COMMENT.match(' in text)
+
+
+def _named_key_edge(body, p) -> bool:
+    """the last branch taken on the path is `<name> == '<literal>'` / `<name> in (<literals>)`, taken true"""
+    for a_, b_ in reversed(list(zip(p, p[1:]))):
+        s = body.stmt.get(a_)
+        if isinstance(s, ast.If):
+            labs = body.g[a_][b_].get('labels', {None})
+            t = s.test
+            return True in labs and isinstance(t, ast.Compare) and len(t.ops) == 1 and isinstance(t.left, ast.Name) and (
+                (isinstance(t.ops[0], ast.Eq) and isinstance(t.comparators[0], ast.Constant) and isinstance(t.comparators[0].value, str)) or
+                (isinstance(t.ops[0], ast.In) and isinstance(t.comparators[0], (ast.Tuple, ast.List, ast.Set)) and all(isinstance(e, ast.Constant) for e in t.comparators[0].elts)))
+    return False
+
+
 def r1(ctx: Ctx, f: FuncInfo, linevar: str) -> None:
     loop = _line_loop(ctx, f)
     body = CFG(loop.body, loop_body=True, opaque_loops=True)
@@ -45,12 +102,20 @@ def r1(ctx: Ctx, f: FuncInfo, linevar: str) -> None:
     ctx.count('paths', len(paths))
     if len(paths) >= 20000:
         ctx.unknown('C17.R1', f, 'too many paths through the line loop body')
+    carried = _carried_names(f, loop)
     silent = []
     for p in paths:
         if p[-1] != CONT:
             continue
+        # the iteration ends normally: the line must have been consumed (something that outlives the iteration was recorded) or be blank / a comment.
+        # Whether the iteration ends by `continue` or by running off the end of the body makes no difference.
+        consumed = any(_is_effect(body.stmt.get(n), carried) for n in p if body.stmt.get(n) is not None)
+        skipped = any(_skip_edge(body.stmt.get(a_), lab) for a_, b_ in zip(p, p[1:]) for lab in body.g[a_][b_].get('labels', {None}))
+        if consumed or skipped:
+            continue
+        # a property recognised by name and deliberately dropped (`elif key == 'note': continue`) is a decision about that key, not a silent ignore
         last = body.stmt.get(p[-2]) if len(p) >= 2 else None
-        if isinstance(last, ast.Continue):
+        if isinstance(last, ast.Continue) and _named_key_edge(body, p):
             continue
         silent.append(p)
     if silent:
@@ -202,14 +267,31 @@ def r3(ctx: Ctx) -> None:
     ctx.check(ok, 'C17.R3', pw, 'warnings-printed', 'recorded warnings are printed', '_print_deprecation_warnings does not print the recorded warnings')
 
 
+def _skip_first(ctx: Ctx, f: FuncInfo, loop, comment_atom, blank_atom) -> None:
+    """Blank and comment lines are skipped before anything else: every statement of the line loop that records something or raises
+    runs only when the line is known to be neither (decided on the branch edges that dominate it, so the spelling of the skip does not matter)."""
+    fl = get_flow(ctx.proj, f)
+    carried = _carried_names(f, loop)
+    sites = [s for s in fl.cfg.stmts() if any(a is loop for a in ancestors(s)) and (isinstance(s, ast.Raise) or (not isinstance(s, (ast.For, ast.While, ast.With, ast.Try, ast.If)) and _is_effect(s, carried)))]
+    if len(sites) < 4:
+        ctx.unknown('C17.R4', f, f'only {len(sites)} storing / raising statements found in the line loop')
+    bad = []
+    for st in sites:
+        g = fl.cfg.guard_literals_within(st, loop)
+        has_c = any(comment_atom[0] in t and tr == comment_atom[1] for t, tr in g)
+        has_b = any(t == blank_atom[0] and tr == blank_atom[1] for t, tr in g)
+        if not (has_c and has_b):
+            bad.append(st)
+    ctx.check(not bad, 'C17.R4', f, 'skip-blank-comment', f'blank and comment lines are skipped before anything else ({len(sites)} storing / raising statements are all behind the skip)',
+              f'{src(bad[0])[:50] if bad else ""!r} can run for a blank or comment line: such a line changes the result', bad[0] if bad else loop)
+
+
 def r4(ctx: Ctx, mp: FuncInfo, ps: FuncInfo) -> None:
     loop = _line_loop(ctx, mp)
     first = loop.body[0]
     ok = isinstance(first, ast.Assign) and src(first) == 'stripped = line.strip()'
     ctx.check(ok, 'C17.R4', mp, 'strip-first', 'each line is stripped first', f'line loop starts with {src(first)[:40]!r}', first)
-    skip = loop.body[1] if len(loop.body) > 1 else None
-    ok = isinstance(skip, ast.If) and src(skip.test).replace(' ', '') == "notstrippedorstripped.startswith('#')" and isinstance(skip.body[0], ast.Continue)
-    ctx.check(ok, 'C17.R4', mp, 'skip-blank-comment', 'blank and # lines are skipped before anything else', 'blank / comment skip is not the first test', skip)
+    _skip_first(ctx, mp, loop, ("startswith('#')", False), ('stripped', True))
     # every classifier test uses `stripped`
     tests = [s for s in loop.body if isinstance(s, ast.If)]
     bad = [t for t in tests if any(isinstance(n, ast.Name) and n.id == 'line' for n in ast.walk(t.test))]
@@ -221,9 +303,7 @@ def r4(ctx: Ctx, mp: FuncInfo, ps: FuncInfo) -> None:
     ctx.check("content.split('\\n')" in src(mp.node), 'C17.R4', mp, 'lines', 'file is split on newlines (a trailing \\r is removed by strip)', 'unexpected line splitting')
     # views
     loop = _line_loop(ctx, ps)
-    first = loop.body[0]
-    ok = isinstance(first, ast.If) and 'COMMENT.match(line)' in src(first.test) and 'BLANK.match(line)' in src(first.test) and isinstance(first.body[0], ast.Continue)
-    ctx.check(ok, 'C17.R4', ps, 'skip-blank-comment', 'blank and comment lines are skipped first', 'blank / comment skip is not the first test', first)
+    _skip_first(ctx, ps, loop, ('COMMENT.match(line)', False), ('BLANK.match(line)', False))
     for rx in ('FILTER_DECL', 'DESCRIPTION_DECL', 'VARIABLE_DECL'):
         calls = [c for c in ast.walk(loop) if isinstance(c, ast.Call) and src(c.func) == f'{rx}.match']
         ok = bool(calls) and all(src(c.args[0]) == 'line.strip()' for c in calls)
